@@ -137,6 +137,22 @@ func c12Exec(r *vf.Run, k c12Case) (keys, whats []string) {
 		add("panic/"+vf.PanicSite(pw), fmt.Sprintf("WriteTo panicked (%s): %s", spec.Describe(), firstLine(pw)))
 		return
 	}
+	// history: after the (possibly failed) render a fault-free render of the same Msg must succeed with an exact count
+	if k.SinkAt%5 == 0 || k.Prod != "" {
+		prodOn = false
+		var clean bytes.Buffer
+		var n2 int64
+		var err2 error
+		pan2, pw2 := vf.Guard(func() { n2, err2 = m.WriteTo(&clean) })
+		prodOn = true
+		if pan2 {
+			add("panic-on-render-after-failure/"+vf.PanicSite(pw2), fmt.Sprintf("a fault-free WriteTo after a failed one panicked (%s): %s", spec.Describe(), firstLine(pw2)))
+		} else if err2 != nil {
+			add("render-after-failure-fails/"+cls, fmt.Sprintf("a fault-free WriteTo after a failed one returned %v (%s)", err2, spec.Describe()))
+		} else if n2 != int64(clean.Len()) {
+			add("count-mismatch/render-after-failure/"+cls, fmt.Sprintf("a fault-free WriteTo after a failed one returned n=%d for %d bytes (%s)", n2, clean.Len(), spec.Describe()))
+		}
+	}
 	faulted := sink.fired || prodFired
 	fault := "sink"
 	if prodFired && !sink.fired {
